@@ -712,7 +712,7 @@ def history(ctx, entry="interdiff", ne=1, seq=((0.10, 900.0), (0.20, 1000.0)), k
         th = object.__new__(GeneralThermodynamics)
         th.phases = ["ALPHA", "P1"]; th.elements = els + ["VA"]; th.numElements = ne + 1
         th.db = None; th.models = {"ALPHA": "model-alpha", "P1": "model-p1"}; th.phase_records = _PR()
-        th.mobCallables = {"ALPHA": {"A": 1}, "P1": None}; th.diffCallables = {"ALPHA": None, "P1": None}
+        th.mobCallables = {"ALPHA": {"mob": "ALPHA"}, "P1": {"mob": "P1"}}; th.diffCallables = {"ALPHA": None, "P1": None}
         th.mobility_correction = {}; th.vacancyPoorInterstitialSublattice = {}; th._parameters = {}
         th.clearCache()
         return th
@@ -731,33 +731,42 @@ def history(ctx, entry="interdiff", ne=1, seq=((0.10, 900.0), (0.20, 1000.0)), k
             res = type("Result", (), {})()
             # the minimiser's answer: a function of the conditions and of the state the composition set carries (its
             # independence of the starting site fractions is pycalphad's business and assumed)
-            res.chemical_potentials = np.array([ctx.uf("mu%d" % c, *st, cur_conds[v.T], *xs, rng=(-3.0, -1.0)) for c in range(ne + 1)])
+            # ... and of the phase whose composition set it is handed
+            ph = cs.phase_record.phase_name
+            res.chemical_potentials = np.array([ctx.uf("mu%d_%s" % (c, ph), *st, cur_conds[v.T], *xs, rng=(-3.0, -1.0)) for c in range(ne + 1)])
             cs.X = [1 - sum(xs)] + xs
             return res
 
     def inverseMobility(chemical_potentials, cs, refEl, mobCallables, mobility_correction=None, vacancy_poor_interstitial_sublattice=False, parameters=None):
-        D = np.array([[ctx.uf("D%d%d" % (a_, b_), chemical_potentials[0], cs.dof[3], rng=(0.5, 2.0)) for b_ in range(ne)] for a_ in range(ne)])
+        tag = "%s_%s" % (cs.phase_record.phase_name, mobCallables["mob"])
+        D = np.array([[ctx.uf("D%d%d_%s" % (a_, b_, tag), chemical_potentials[0], cs.dof[3], rng=(0.5, 2.0)) for b_ in range(ne)] for a_ in range(ne)])
         return D, None, None
 
     def tracer_diffusivity(cs, mobCallables, mobility_correction=None, parameters=None):
-        return np.array([ctx.uf("Dt%d" % c, cs.dof[3], *cs.X[1:], rng=(0.5, 2.0)) for c in range(ne + 1)])
+        tag = "%s_%s" % (cs.phase_record.phase_name, mobCallables["mob"])
+        return np.array([ctx.uf("Dt%d_%s" % (c, tag), cs.dof[3], *cs.X[1:], rng=(0.5, 2.0)) for c in range(ne + 1)])
 
-    def ask(th, x, T, removeCache):
+    def ask(th, q, removeCache):
+        x, T = q[0], q[1]
+        phase = q[2] if len(q) > 2 else None          # None: the matrix phase (the default of the entry points)
         xx = x if ne == 1 else [x / (e + 1) for e in range(ne)]
         if entry == "interdiff":
-            return th.getInterdiffusivity(xx, T, removeCache=removeCache)
-        return th.getTracerDiffusivity(xx, T, removeCache=removeCache)
+            return th.getInterdiffusivity(xx, T, removeCache=removeCache, phase=phase)
+        return th.getTracerDiffusivity(xx, T, removeCache=removeCache, phase=phase)
     with patched(_LE, "Solver", Solver), patched(_LE, "calculate", calculate), patched(_LE, "CompositionSet", _CompSet), \
             patched(_TH, "inverseMobility", inverseMobility), patched(_TH, "tracer_diffusivity", tracer_diffusivity):
         warm = mk()
-        for (x, T) in seq[:-1]:
-            ask(warm, x, T, not keep)
-            ctx.prove("cached composition set kept / discarded as requested", (warm._diffusivity_cache.get("ALPHA") is not None) == keep)
-        r_hist = ask(warm, seq[-1][0], seq[-1][1], not keep)
-        r_fresh = ask(mk(), seq[-1][0], seq[-1][1], True)
+        for q in seq[:-1]:
+            ask(warm, q, not keep)
+            qp = q[2] if len(q) > 2 else "ALPHA"
+            ctx.prove("cached composition set kept / discarded as requested (under the phase that was asked)",
+                      (warm._diffusivity_cache.get(qp) is not None) == keep and
+                      (not keep or all(cs.phase_record.phase_name == qp for cs in warm._diffusivity_cache[qp])))
+        r_hist = ask(warm, seq[-1], not keep)
+        r_fresh = ask(mk(), seq[-1], True)
         ctx.observe("r_hist", np.atleast_1d(r_hist)); ctx.observe("r_fresh", np.atleast_1d(r_fresh))
         ctx.prove("answer independent of the queries made before and of keeping the cached equilibria", _same(ctx, np.asarray(r_hist), np.asarray(r_fresh)))
-        r_again = ask(warm, seq[-1][0], seq[-1][1], not keep)
+        r_again = ask(warm, seq[-1], not keep)
         ctx.prove("repeating the call gives the same answer", _same(ctx, np.asarray(r_hist), np.asarray(r_again)))
 
 
@@ -859,13 +868,20 @@ HARNESSES = [
             assumptions=["query points are concrete (float() in local_equilibrium); backend answers are uninterpreted functions",
                          "the minimiser's answer does not depend on the starting site fractions of a supplied composition set (pycalphad; outside the claim)"],
             stubs=["pycalphad calculate / CompositionSet / Solver: answer = uninterpreted function of the conditions and of the state variables the composition set carries",
-                   "inverseMobility / tracer_diffusivity: uninterpreted functions of the chemical potentials, the composition set's temperature and composition"],
-            bounds={"query sequence": "seq (last one compared with a fresh object)", "solutes": "ne"},
+                   "the answer also depends on the phase of the composition set handed to the solver",
+                   "inverseMobility / tracer_diffusivity: uninterpreted functions of the chemical potentials, the composition set's phase, temperature and composition and of the phase whose mobility model is passed"],
+            bounds={"query sequence": "seq of (x, T[, phase]) (last one compared with a fresh object)", "solutes": "ne", "phases with mobility data": 2},
             params={"quick": [{"entry": "interdiff", "ne": 1, "keep": True}, {"entry": "interdiff", "ne": 2, "keep": False}, {"entry": "tracer", "ne": 1, "keep": True},
                               {"entry": "tracer", "ne": 2, "keep": True, "seq": [[0.1, 900.0], [0.1, 1000.0], [0.3, 900.0]]},
-                              {"entry": "interdiff", "ne": 1, "keep": True, "seq": [[0.2, 1000.0], [0.2, 1000.0]]}],
+                              {"entry": "interdiff", "ne": 1, "keep": True, "seq": [[0.2, 1000.0], [0.2, 1000.0]]},
+                              {"entry": "interdiff", "ne": 1, "keep": True, "seq": [[0.1, 900.0, "ALPHA"], [0.1, 900.0, "P1"]]},
+                              {"entry": "interdiff", "ne": 2, "keep": True, "seq": [[0.1, 900.0, "P1"], [0.2, 1000.0], [0.2, 1000.0, "P1"]]},
+                              {"entry": "tracer", "ne": 1, "keep": True, "seq": [[0.1, 900.0], [0.2, 950.0, "P1"]]},
+                              {"entry": "tracer", "ne": 2, "keep": False, "seq": [[0.1, 900.0, "P1"], [0.1, 900.0, "ALPHA"]]}],
                     "thorough": [{"entry": e, "ne": ne, "keep": k, "seq": sq} for e in ("interdiff", "tracer") for ne in (1, 2, 3) for k in (True, False)
-                                 for sq in ([[0.1, 900.0], [0.2, 1000.0]], [[0.1, 900.0], [0.1, 1000.0], [0.3, 900.0]], [[0.3, 1200.0], [0.1, 1200.0], [0.1, 300.0]])]}),
+                                 for sq in ([[0.1, 900.0], [0.2, 1000.0]], [[0.1, 900.0], [0.1, 1000.0], [0.3, 900.0]], [[0.3, 1200.0], [0.1, 1200.0], [0.1, 300.0]],
+                                            [[0.1, 900.0, "ALPHA"], [0.1, 900.0, "P1"]], [[0.1, 900.0, "P1"], [0.2, 1000.0], [0.2, 1000.0, "P1"]],
+                                            [[0.2, 950.0, "P1"], [0.2, 950.0, "ALPHA"], [0.3, 800.0, "P1"], [0.3, 800.0]])]}),
     Harness("C09.reset", reset, functions=[GeneralThermodynamics.clearCache, MulticomponentThermodynamics.clearCache, GeneralThermodynamics._resetDrivingForceCache, HashTable.clearCache],
             params={"quick": [{"multi": False}, {"multi": True}], "thorough": [{"multi": False}, {"multi": True}]}),
 ]
